@@ -415,6 +415,99 @@ func extractC14() *lean {
 		}
 	}
 
+	// ---- network.go Network.Start: the resume loop - where Run() is called. Every notifier of state.Notifiers() must get
+	//      Run() unconditionally: record the range expression, the Run calls, every condition on the path from the loop
+	//      body to a Run call, every other call in the loop and every continue/break.
+	_, nwf := parseFile("network/network.go")
+	var startRanges, startGuards, startOtherCalls []string
+	startRuns, startSkips := 0, 0
+	if fd := funcDecl(nwf, "Start"); fd != nil {
+		ast.Inspect(fd, func(n ast.Node) bool {
+			rs, ok := n.(*ast.RangeStmt)
+			if !ok || c14CallsIn(rs.Body, "notifier.Run") == 0 {
+				return true
+			}
+			startRanges = append(startRanges, c14Expr(rs.X))
+			var walk func(n ast.Node, guards []string)
+			walk = func(n ast.Node, guards []string) {
+				switch x := n.(type) {
+				case nil:
+					return
+				case *ast.BlockStmt:
+					for _, st := range x.List {
+						walk(st, guards)
+					}
+				case *ast.IfStmt:
+					// `if err = notifier.Run(); err != nil {…}`: the Init runs unguarded
+					walk(x.Init, guards)
+					g := append(append([]string{}, guards...), c14Expr(x.Cond))
+					if c14CallsIn(x.Cond, "notifier.Run") > 0 {
+						walk(&ast.ExprStmt{X: x.Cond}, guards)
+					}
+					walk(x.Body, g)
+					if x.Else != nil {
+						walk(x.Else, append(append([]string{}, guards...), "!("+c14Expr(x.Cond)+")"))
+					}
+				case *ast.BranchStmt:
+					startSkips++
+				case *ast.ReturnStmt:
+					// leaving Start without an error before the remaining notifiers ran
+					allNil := true
+					for _, r := range x.Results {
+						allNil = allNil && exprString(r) == "nil"
+					}
+					if allNil {
+						startSkips++
+					}
+				case *ast.ForStmt, *ast.RangeStmt, *ast.SwitchStmt, *ast.TypeSwitchStmt, *ast.SelectStmt, *ast.GoStmt, *ast.DeferStmt, *ast.FuncLit:
+					startGuards = append(startGuards, fmt.Sprintf("<%T>", x))
+				default:
+					ast.Inspect(n, func(m ast.Node) bool {
+						ce, ok := m.(*ast.CallExpr)
+						if !ok {
+							return true
+						}
+						name := exprString(ce.Fun)
+						if name == "notifier.Run" {
+							startRuns++
+							startGuards = append(startGuards, guards...)
+						} else if strings.HasPrefix(name, "notifier.") {
+							startOtherCalls = append(startOtherCalls, name)
+						}
+						return true
+					})
+				}
+			}
+			walk(rs.Body, nil)
+			return false
+		})
+	}
+	l.def("startResumeLoopRanges", "List String", leanStrList(startRanges), startRanges)
+	l.def("startRunCalls", "Nat", fmt.Sprint(startRuns), startRuns)
+	l.def("startRunGuards", "List String", leanStrList(startGuards), startGuards)
+	l.def("startLoopSkips", "Nat", fmt.Sprint(startSkips), startSkips)
+	l.def("startLoopOtherNotifierCalls", "List String", leanStrList(startOtherCalls), startOtherCalls)
+	// dag/state.go Notifiers(): every registered notifier is returned (no condition, Range never stops early)
+	notifiersIfs, notifiersRet := 0, []string{}
+	if fd := funcDecl(sf, "Notifiers"); fd != nil {
+		ast.Inspect(fd, func(n ast.Node) bool {
+			switch x := n.(type) {
+			case *ast.IfStmt:
+				notifiersIfs++
+			case *ast.FuncLit:
+				ast.Inspect(x.Body, func(m ast.Node) bool {
+					if r, ok := m.(*ast.ReturnStmt); ok && len(r.Results) == 1 {
+						notifiersRet = append(notifiersRet, exprString(r.Results[0]))
+					}
+					return true
+				})
+			}
+			return true
+		})
+	}
+	l.def("stateNotifiersConditions", "Nat", fmt.Sprint(notifiersIfs), notifiersIfs)
+	l.def("stateNotifiersRangeReturns", "List String", leanStrList(notifiersRet), notifiersRet)
+
 	// ---- protocol v2 handleTransactionPayload: order of the state calls
 	_, hf := parseFile("network/transport/v2/handlers.go")
 	var hcalls []string
